@@ -85,6 +85,97 @@ func (m *replyModel) takesT(c ssa.CallInstruction) bool {
 	return false
 }
 
+// unitArgs: for a parameter of a helper that the flow analyses in place, the
+// argument values at the helper's call sites that lie in the unit of the
+// function being analysed (the helper may be shared with other request types,
+// whose call sites do not count here).
+func (m *replyModel) unitArgs(prm *ssa.Parameter) []ssa.Value {
+	if m.root == nil || prm.Parent() == m.root {
+		return nil
+	}
+	idx := -1
+	for i, q := range prm.Parent().Params {
+		if q == prm {
+			idx = i
+		}
+	}
+	unit := map[*ssa.Function]bool{}
+	for _, f := range m.p.Scope(m.root) {
+		unit[f] = true
+	}
+	for _, f := range m.p.Helpers(m.root) {
+		unit[f] = true
+	}
+	var out []ssa.Value
+	for _, cs := range m.p.CallersOf(prm.Parent()) {
+		if idx >= 0 && idx < len(cs.Common().Args) && (unit[cs.Parent()] || unit[core.Outermost(cs.Parent())]) {
+			out = append(out, cs.Common().Args[idx])
+		}
+	}
+	return out
+}
+
+// flagThroughPointer: v loads the replied flag through a *bool parameter of a
+// shared helper to which every call site of the unit passes the address of the
+// flag field.
+func (m *replyModel) flagThroughPointer(v ssa.Value) bool {
+	u, ok := v.(*ssa.UnOp)
+	if !ok || u.Op != token.MUL {
+		return false
+	}
+	prm, ok := u.X.(*ssa.Parameter)
+	if !ok {
+		return false
+	}
+	args := m.unitArgs(prm)
+	if len(args) == 0 {
+		return false
+	}
+	for _, a := range args {
+		f, ok := core.FieldOf(a)
+		if !ok || f != m.flag {
+			return false
+		}
+	}
+	return true
+}
+
+// boundCallees: the methods a function-typed parameter of a shared helper
+// stands for at the unit's call sites (method values / plain functions); nil
+// if some call site passes anything else.
+func (m *replyModel) boundCallees(v ssa.Value) []*ssa.Function {
+	prm, ok := v.(*ssa.Parameter)
+	if !ok {
+		return nil
+	}
+	if _, isSig := prm.Type().Underlying().(*types.Signature); !isSig {
+		return nil
+	}
+	args := m.unitArgs(prm)
+	if len(args) == 0 {
+		return nil
+	}
+	var out []*ssa.Function
+	for _, a := range args {
+		switch x := a.(type) {
+		case *ssa.MakeClosure:
+			f, _ := x.Fn.(*ssa.Function)
+			if bm := boundMethod(f); bm != nil {
+				out = append(out, bm)
+			} else if f != nil {
+				out = append(out, f)
+			} else {
+				return nil
+			}
+		case *ssa.Function:
+			out = append(out, x)
+		default:
+			return nil
+		}
+	}
+	return out
+}
+
 func (m *replyModel) transfer(in ssa.Instruction, s0 int) core.StateSet {
 	base, tag := s0&1, s0>>1
 	res := m.baseTransfer(in, base)
@@ -155,6 +246,26 @@ func (m *replyModel) baseTransfer(in ssa.Instruction, s int) core.StateSet {
 		if _, ok := cc.Value.(*ssa.Builtin); ok {
 			return one
 		}
+		// a function value handed to a shared helper by the unit (e.g. the reply method as the
+		// "send this error" callback): judged like a call of the method(s) it stands for
+		if cals := m.boundCallees(cc.Value); len(cals) > 0 {
+			allMust, anyMay := true, false
+			for _, cal := range cals {
+				if !m.must[cal] {
+					allMust = false
+				}
+				if m.may[cal] {
+					anyMay = true
+				}
+			}
+			switch {
+			case allMust:
+				return core.StateSet(0).Add(stYes)
+			case anyMay:
+				return one.Add(stYes)
+			}
+			return one
+		}
 		// dynamic call or interface invoke: havoc iff the request is passed
 		if m.takesT(in) {
 			return one.Add(stYes)
@@ -195,6 +306,20 @@ func (m *replyModel) branch(iff *ssa.If, succ int, s0 int) (int, bool) {
 		}
 	}
 	ci := core.Cond(iff.Cond)
+	if ci.Kind != "boolfield" {
+		// `if !*replied` in a helper that receives &req.replied
+		c, neg := iff.Cond, false
+		for {
+			u, ok := c.(*ssa.UnOp)
+			if !ok || u.Op != token.NOT {
+				break
+			}
+			c, neg = u.X, !neg
+		}
+		if m.flagThroughPointer(c) {
+			ci.Kind, ci.Field, ci.Negate = "boolfield", m.flag, neg
+		}
+	}
 	if ci.Kind == "boolfield" && ci.Field == m.flag {
 		truth := succ == 0
 		if ci.Negate {
